@@ -270,7 +270,7 @@ def main(chk):
     # hash-collision libraries
     for i in range(chk.pick(4, 30)):
         cid += 1
-        cases.append(dict(id=cid, libseed=rng.randrange(1 << 30), collide=rng.choice([2, 2, 3]),
+        cases.append(dict(id=cid, libseed=rng.randrange(1 << 30), collide=rng.choice([2, 3, 4, 5, 8]),
                           opts=[rng.choice(["-c", "-python-native", "-python"]), "-fnames"] +
                           (["-unique-names"] if rng.random() < 0.5 else [])))
     # adversarial names / literals, and declarations with unusual types
